@@ -8,6 +8,9 @@ tag=$1; patch=$(readlink -f "$2"); id=$3; tier=${4:-quick}
 WT=/tmp/wt-mut-$tag
 git -C /repo worktree remove --force "$WT" 2>/dev/null
 git -C /repo worktree add -q --detach "$WT" HEAD || exit 2
+# carry over uncommitted hook additions of /repo's working tree (hooks are appended by several groups before the lead commits them)
+git -C /repo diff HEAD > /tmp/wt-mut-$tag.wip.diff
+if [ -s /tmp/wt-mut-$tag.wip.diff ]; then ( cd "$WT" && git apply /tmp/wt-mut-$tag.wip.diff ) || { echo "cannot carry over /repo working-tree changes"; git -C /repo worktree remove --force "$WT"; exit 2; }; fi
 ( cd "$WT" && git apply "$patch" ) || { echo "patch does not apply"; git -C /repo worktree remove --force "$WT"; exit 2; }
 export CARGO_TARGET_DIR=/verif/target-mut-$tag CARGO_NET_OFFLINE=true
 ( cd /verif/mc && cargo build --release --bin mc --config "paths=[\"$WT/sdk\",\"$WT/c2pa_c_ffi\"]" >/tmp/mutbuild-$tag.log 2>&1 ) || { echo "mutant build failed, see /tmp/mutbuild-$tag.log"; tail -20 /tmp/mutbuild-$tag.log; git -C /repo worktree remove --force "$WT"; exit 2; }
